@@ -128,7 +128,8 @@ let parse_tags s : (z * z) list =
   List.map (fun p -> match String.split_on_char ':' p with
     | [a; b] -> (zi a, zi b) | _ -> failwith "bad tag") (String.split_on_char ',' s)
 
-let sort_tags l = List.sort compare (List.map (fun (a, b) -> (int_of_z a, int_of_z b)) l)
+(* as stored by gdstk: the sign-extended 16-bit field in an unsigned 32-bit half of the tag (sorted as such) *)
+let sort_tags l = let u i = if i < 0 then i + 4294967296 else i in List.sort compare (List.map (fun (a, b) -> (u (int_of_z a), u (int_of_z b))) l)
 
 let () =
   iter_cases Sys.argv.(1) (fun id kind payload ->
